@@ -131,6 +131,11 @@ type Sched struct {
 	Visited  map[uint64]struct{} // shared across the executions of one exploration
 	OpSeq    uint64              // order-sensitive hash of the shared-stream operations performed so far
 	ObsHash  uint64              // hash of what the driver has observed so far (API call results)
+	// directed replay (model -> implementation): thread ids to run at the successive points where
+	// more than the calling goroutine is enabled; exhausted -> default choices
+	Directed []int
+	dirPos   int
+	DirErr   string
 }
 
 var active *Sched
@@ -372,6 +377,26 @@ func (s *Sched) switchFrom(t *Thread, exiting bool) {
 				}
 			}
 			s.sleep = ns
+		}
+	}
+	if s.Directed != nil && s.dirPos < len(s.Directed) && n >= len(s.Prefix) {
+		want := s.Directed[s.dirPos]
+		found := -1
+		for i, x := range en {
+			if x.ID == want {
+				found = i
+			}
+		}
+		switch {
+		case found >= 0:
+			idx = found
+			s.dirPos++
+		case len(en) == 1 && en[0].ID == 0:
+			idx = 0 // the calling goroutine runs alone (before the tasks exist / after they finished)
+		default:
+			s.DirErr = fmt.Sprintf("directed step %d wants thread %d, which is not enabled (enabled: %d threads, first T%d)", s.dirPos, want, len(en), en[0].ID)
+			s.Directed = nil
+			idx = 0
 		}
 	}
 	sh := s.stateHash()
